@@ -299,6 +299,7 @@ func checkC13(c *Ctx) {
 	checkNoComparisonState(c, "C13.R8.no-shared-state", pk)
 	checkWidenessInclusion(c, "C13.R4.wideness-inclusion", pk)
 	checkPresencePure(c, "C13.R7.presence-pure", pk)
+	checkEnumAnyType(c, "C13.R4.enum-any-type", pk)
 	checkAccumulation(c, pk)
 	checkTwinShortcuts(c, "C13.R4.twin-shortcuts", r)
 	checkBothPresent(c, "C13.R4.both-present", r)
@@ -1220,5 +1221,46 @@ func checkPresencePure(c *Ctx, rule string, pk *packages.Package) {
 				fmt.Sprintf("the presence test `%s` carries a second condition (%s): keys that are missing on the other side but fail it are treated as present, and their deletion or addition is not reported", goan.ExprString(as.Rhs[0]), goan.ExprString(ifs.Cond)))
 			return true
 		})
+	}
+}
+
+// checkEnumAnyType: an enum narrows the values of a parameter or property of any primitive
+// type. The comparison of the two enums must not sit behind a test for the string type.
+func checkEnumAnyType(c *Ctx, rule string, pk *packages.Package) {
+	c.Rule(rule, "CompareEnums over the schema properties of the two specs is not guarded by a test on the string type", 1)
+	info := pk.TypesInfo
+	n := 0
+	for _, fd := range load.AllFuncs(pk) {
+		if fd.Body == nil {
+			continue
+		}
+		goan.WalkGuards(info, fd.Body, func(leaf ast.Node, guards []goan.Lit, _ []ast.Stmt) {
+			ast.Inspect(leaf, func(m ast.Node) bool {
+				if _, isLit := m.(*ast.FuncLit); isLit {
+					return false
+				}
+				call, ok := m.(*ast.CallExpr)
+				if !ok {
+					return true
+				}
+				fn := goan.Callee(info, call)
+				if fn == nil || fn.Name() != "CompareEnums" || fn.Pkg() != pk.Types {
+					return true
+				}
+				n++
+				var bad []string
+				for _, g := range guards {
+					if strings.Contains(goan.ExprString(g.E), "StringType") && g.Pos {
+						bad = append(bad, g.String())
+					}
+				}
+				c.Check(len(bad) == 0, rule, fmt.Sprintf("diff.%s › CompareEnums for every type", load.FuncName(fd)), c.posOf(pk, call.Pos()), "no string-type guard",
+					fmt.Sprintf("the enums are compared only under %v: an integer, number or boolean enum that loses a value is reported as unchanged", bad))
+				return true
+			})
+		})
+	}
+	if n == 0 {
+		c.Anchor(rule, "diff › CompareEnums call", "not found")
 	}
 }
